@@ -69,6 +69,63 @@ IGNORES_AESNI_EXPECTED = ("KW", "KWP")
 
 PAT_STREAM = ((1, 15, 16, 17, 31, 33, 127, 129), (128, 16, 112, 1, 64, 3))
 PAT_BLOCK = ((16, 128, 32, 144), (112, 16, 128, 48))
+# segmentation 3 (thorough, long inputs): large pieces around the 8-block (128 byte) unit of AESNI.c / raw_ctr.c
+PAT_LONG_STREAM = (4097, 128, 65535, 16, 1, 100003)
+PAT_LONG_BLOCK = (4096, 128, 65520, 16, 100000)
+# segmentation 4 (thorough): the one-shot AEAD entry points encrypt_and_digest / decrypt_and_verify
+
+# thorough tier: every CFB segment size (the quick grid has 8, 64, 128 only)
+CFB_ALL = tuple("CFB%d" % s for s in range(8, 129, 8))
+CFB_EXTRA = tuple(m for m in CFB_ALL if m not in MODES)
+for _m in CFB_EXTRA:
+    FAMILY[_m] = "feedback"
+OUT_OK = OUT_OK + CFB_EXTRA
+INC_OK = INC_OK + CFB_EXTRA
+HONOUR = tuple(m for m in MODES if m not in IGNORES_AESNI_EXPECTED)
+
+
+def iv_alphabet():
+    """zero, ones, ascending (= IV16, the value of the basic grid), seeded"""
+    from ..common import seeded
+    return (bytes(16), b"\xff" * 16, IV16, seeded("c16iv", 16))
+
+
+def nonce_of(n):
+    return asc(n, 0xA0)             # a prefix / extension of IV16
+
+
+def param_variants(mode):
+    """Parameter variants of one mode for the thorough 'params' grid (the basic grid fixes one value each).
+    A variant is a JSON-able list; None = the parameters of the basic grid."""
+    out = []
+    if mode in ("CBC", "OFB", "OPENPGP") or mode.startswith("CFB"):
+        out += [["iv", i] for i in (0, 1, 3)]                       # 2 = IV16 is the basic grid
+    if mode == "CTR":
+        for nl in range(0, 16):                                     # every nonce length; counter = 16-nl bytes
+            top = 2 ** (8 * (16 - nl))
+            for init in sorted(set((0, 255, top - 3, top - 1))):    # byte carry after 1 block; wrap after 3 / 1 blocks
+                if (nl, init) != (8, 0):
+                    out.append(["ctr", nl, init])
+        for pl, nbits, sl in ((0, 128, 0), (8, 64, 0), (4, 64, 4), (0, 64, 8), (12, 32, 0), (6, 32, 6),
+                              (0, 32, 12), (14, 16, 0), (15, 8, 0), (0, 8, 15), (7, 8, 8)):
+            for little in (False, True):
+                for init in sorted(set((1, 255, 2 ** nbits - 3))):
+                    out.append(["ctrobj", pl, nbits, sl, init, little])
+    if mode == "CCM":
+        out += [["ccm", nl, ml] for nl in range(7, 14) for ml in (4, 6, 8, 10, 12, 14, 16) if (nl, ml) != (11, 16)]
+    if mode == "EAX":
+        out += [["eax", nl, ml] for nl in (1, 15, 16, 17, 33) for ml in range(2, 17) if (nl, ml) != (16, 16)]
+    if mode == "GCM":
+        out += [["gcm", nl, ml] for nl in (1, 8, 12, 13, 16, 17, 33) for ml in range(4, 17) if (nl, ml) != (12, 16)]
+    if mode == "OCB":
+        out += [["ocb", nl, ml] for nl in range(1, 16) for ml in range(8, 17) if (nl, ml) != (15, 16)]
+    if mode == "SIV":
+        out += [["siv", nl, nc] for nl in (-1, 1, 16, 17) for nc in (0, 1, 2, 3)]
+    return out
+
+
+def pv_tag(pv):
+    return "" if pv is None else "/" + "-".join(str(x) for x in pv)
 
 # ---------------------------------------------------------------------------
 # which native library ran?  (seam: module attributes AES._raw_aes_lib / AES._raw_aesni_lib)
@@ -115,32 +172,56 @@ def cpu():
 
 
 # ---------------------------------------------------------------------------
-def _new(mode, key, ni, L, alen, iv=None):
+def _new(mode, key, ni, L, alen, iv=None, pv=None):
     from Crypto.Cipher import AES
     kw = {"use_aesni": ni}
+    iv16 = IV16
+    if pv is not None and pv[0] == "iv":
+        iv16 = iv_alphabet()[pv[1]]
     if mode == "ECB":
         return AES.new(key, AES.MODE_ECB, **kw)
     if mode == "CBC":
-        return AES.new(key, AES.MODE_CBC, iv=IV16, **kw)
+        return AES.new(key, AES.MODE_CBC, iv=iv16, **kw)
     if mode.startswith("CFB"):
-        return AES.new(key, AES.MODE_CFB, iv=IV16, segment_size=int(mode[3:]), **kw)
+        return AES.new(key, AES.MODE_CFB, iv=iv16, segment_size=int(mode[3:]), **kw)
     if mode == "OFB":
-        return AES.new(key, AES.MODE_OFB, iv=IV16, **kw)
+        return AES.new(key, AES.MODE_OFB, iv=iv16, **kw)
     if mode == "CTR":
+        if pv is not None and pv[0] == "ctr":
+            return AES.new(key, AES.MODE_CTR, nonce=nonce_of(pv[1]), initial_value=pv[2], **kw)
+        if pv is not None and pv[0] == "ctrobj":
+            from Crypto.Util import Counter
+            ctr = Counter.new(pv[2], prefix=nonce_of(pv[1]), suffix=asc(pv[3], 0x50), initial_value=pv[4],
+                              little_endian=bool(pv[5]))
+            return AES.new(key, AES.MODE_CTR, counter=ctr, **kw)
         return AES.new(key, AES.MODE_CTR, nonce=IV16[:8], **kw)
-    if mode == "CTRwrap":       # the 128-bit counter wraps after 5 blocks -> OverflowError for L > 80
+    if mode == "CTRwrap":       # the 128-bit counter passes through zero after 5 blocks (the library refuses only a
+        #                         counter that comes back to its INITIAL value: see the 1- and 2-byte counters of the
+        #                         thorough 'long' grid, which do raise OverflowError)
         return AES.new(key, AES.MODE_CTR, nonce=b"", initial_value=2 ** 128 - 5, **kw)
     if mode == "OPENPGP":
-        return AES.new(key, AES.MODE_OPENPGP, iv=iv or IV16, **kw)
+        return AES.new(key, AES.MODE_OPENPGP, iv=iv or iv16, **kw)
     if mode == "CCM":
+        if pv is not None:
+            return AES.new(key, AES.MODE_CCM, nonce=nonce_of(pv[1]), mac_len=pv[2], msg_len=L, assoc_len=alen, **kw)
         return AES.new(key, AES.MODE_CCM, nonce=IV16[:11], msg_len=L, assoc_len=alen, **kw)
     if mode == "EAX":
+        if pv is not None:
+            return AES.new(key, AES.MODE_EAX, nonce=nonce_of(pv[1]), mac_len=pv[2], **kw)
         return AES.new(key, AES.MODE_EAX, nonce=IV16, **kw)
     if mode == "GCM":
+        if pv is not None:
+            return AES.new(key, AES.MODE_GCM, nonce=nonce_of(pv[1]), mac_len=pv[2], **kw)
         return AES.new(key, AES.MODE_GCM, nonce=IV16[:12], **kw)
     if mode == "OCB":
+        if pv is not None:
+            return AES.new(key, AES.MODE_OCB, nonce=nonce_of(pv[1]), mac_len=pv[2], **kw)
         return AES.new(key, AES.MODE_OCB, nonce=IV16[:15], **kw)
     if mode == "SIV":
+        if pv is not None and pv[1] < 0:
+            return AES.new(key, AES.MODE_SIV, **kw)
+        if pv is not None:
+            return AES.new(key, AES.MODE_SIV, nonce=nonce_of(pv[1]), **kw)
         return AES.new(key, AES.MODE_SIV, nonce=IV16, **kw)
     if mode == "KW":
         return AES.new(key, AES.MODE_KW, **kw)
@@ -150,9 +231,12 @@ def _new(mode, key, ni, L, alen, iv=None):
 
 
 def pieces(L, inc, block):
-    if inc == 0:
+    if inc == 0 or inc == 4:
         return [L]
-    pat = (PAT_BLOCK if block else PAT_STREAM)[inc - 1]
+    if inc == 3:
+        pat = PAT_LONG_BLOCK if block else PAT_LONG_STREAM
+    else:
+        pat = (PAT_BLOCK if block else PAT_STREAM)[inc - 1]
     out, rest, i = [], L, 0
     while rest > 0:
         n = min(pat[i % len(pat)], rest)
@@ -162,16 +246,36 @@ def pieces(L, inc, block):
     return out or [0]
 
 
-def _inp(data, off):
-    """bytes at offset 0; otherwise a memoryview slice starting `off` bytes into a bytearray"""
+def aligned(n, a, fill=None):
+    """writable memoryview of n bytes whose ADDRESS is congruent to a (mod 16): bytes objects and malloc'ed
+    bytearrays are 16-byte aligned, so this is what decides between aligned and unaligned SSE loads/stores"""
+    import ctypes
+    buf = bytearray(n + 32)
+    base = ctypes.addressof(ctypes.c_char.from_buffer(buf))
+    st = (a - base) % 16
+    mv = memoryview(buf)[st:st + n]
+    if fill is not None:
+        mv[:] = fill
+    return mv
+
+
+def _inp(data, off, place=None):
+    """bytes at offset 0; otherwise a memoryview slice starting `off` bytes into a bytearray.
+    place = [input alignment mod 16, output alignment mod 16 | "inplace" | None]: a writable view at that address"""
+    if place is not None:
+        return aligned(len(data), place[0], data)
     if off == 0:
         return bytes(data)
     buf = bytearray(off) + bytearray(data) + bytearray(4 - off)
     return memoryview(buf)[off:off + len(data)]
 
 
-def _call(fn, piece, off, use_out, part):
-    if use_out and off:
+def _call(fn, piece, off, use_out, part, place=None):
+    if place is not None and use_out and place[1] is not None:
+        ob = piece if place[1] == "inplace" else aligned(len(piece), place[1])
+        r = fn(piece, output=ob)
+        part.append(bytes(ob) if r is None else b"<returned %s with output=>" % type(r).__name__.encode())
+    elif place is None and use_out and off:
         n = len(piece)
         ob = memoryview(bytearray(n + 8))[4 - off:4 - off + n]
         r = fn(piece, output=ob)
@@ -180,7 +284,12 @@ def _call(fn, piece, off, use_out, part):
         part.append(bytes(fn(piece)))
 
 
-def _run(mode, key, ni, data, aad, off, direction, inc, ref):
+def siv_components(L, n):
+    """n non-empty S2V strings (update() calls) for the SIV parameter variants"""
+    return [asc(1 + (L + 7 * i) % 37, 0x30 + i) for i in range(n)]
+
+
+def _run(mode, key, ni, data, aad, off, direction, inc, ref, pv=None, place=None):
     """-> observation tuple; `ref` = (ciphertext, tag) produced by the reference configuration"""
     part = []
     try:
@@ -194,35 +303,58 @@ def _run(mode, key, ni, data, aad, off, direction, inc, ref):
             return ("ok", bytes(c.unseal(bytes(src))), None)
         if mode == "OPENPGP":
             if direction == "enc":
-                c = _new(mode, key, ni, L, 0)
-                return ("ok", bytes(c.encrypt(_inp(data, off))), None)
-            src = ref[0] if ref else IV16 + b"\x00\x00" + data
-            c = _new(mode, key, ni, L, 0, iv=src[:18])
-            return ("ok", bytes(c.decrypt(_inp(src[18:], off))), None)
+                c = _new(mode, key, ni, L, 0, pv=pv)
+                return ("ok", bytes(c.encrypt(_inp(data, off, place))), None)
+            src = ref[0] if ref else (iv_alphabet()[pv[1]] if pv else IV16) + b"\x00\x00" + data
+            c = _new(mode, key, ni, L, 0, iv=src[:18], pv=pv)
+            return ("ok", bytes(c.decrypt(_inp(src[18:], off, place))), None)
         if mode == "SIV":
-            c = _new(mode, key, ni, L, 0)
-            if aad:
-                c.update(_inp(aad, off))
+            c = _new(mode, key, ni, L, 0, pv=pv)
+            if pv is not None:
+                for comp in siv_components(L, pv[2]):
+                    c.update(_inp(comp, off, place))
+            elif aad:
+                c.update(_inp(aad, off, place))
             if direction == "enc":
-                ct, tag = c.encrypt_and_digest(_inp(data, off))
-                return ("ok", bytes(ct), bytes(tag))
-            src, tag = ref if ref else (data, bytes(16))
-            return ("ok", bytes(c.decrypt_and_verify(_inp(src, off), tag)), "verified")
+                src, tag = _inp(data, off, place), None
+            else:
+                s0, tag = ref if ref else (data, bytes(16))
+                src = _inp(s0, off, place)
+            ob = None
+            if place is not None and place[1] is not None:
+                ob = src if place[1] == "inplace" else aligned(len(src), place[1])
+            okw = {} if ob is None else {"output": ob}
+            if direction == "enc":
+                r = c.encrypt_and_digest(src, **okw)
+                return ("ok", bytes(r[0] if ob is None else ob), bytes(r[1]))
+            r = c.decrypt_and_verify(src, tag, **okw)
+            return ("ok", bytes(r if ob is None else ob), "verified")
         aead = FAMILY[mode] == "aead"
         src = data
         tag = None
         if direction == "dec" and aead:
             src, tag = ref if ref else (data, bytes(16))
-        c = _new(mode, key, ni, len(src), len(aad))
+        c = _new(mode, key, ni, len(src), len(aad), pv=pv)
         if aead and aad:
             pos = 0
             for n in pieces(len(aad), inc, False):
-                c.update(_inp(aad[pos:pos + n], off))
+                c.update(_inp(aad[pos:pos + n], off, place))
                 pos += n
+        if inc == 4 and aead:
+            # the one-shot entry points
+            piece = _inp(src, off, place)
+            okw = {}
+            if mode in OUT_OK and place is not None and place[1] is not None:
+                okw["output"] = piece if place[1] == "inplace" else aligned(len(piece), place[1])
+            if direction == "enc":
+                r = c.encrypt_and_digest(piece, **okw)
+                return ("ok", bytes(okw["output"] if okw else r[0]), bytes(r[1]))
+            r = c.decrypt_and_verify(piece, tag, **okw)
+            return ("ok", bytes(okw["output"] if okw else r), "verified")
         fn = c.encrypt if direction == "enc" else c.decrypt
         pos = 0
         for n in pieces(len(src), inc, mode in BLOCK_MODES):
-            _call(fn, _inp(src[pos:pos + n], off), off, use_out, part)
+            _call(fn, _inp(src[pos:pos + n], off, place), off, use_out, part, place)
             pos += n
         if mode == "OCB":
             part.append(bytes(fn()))
@@ -236,37 +368,71 @@ def _run(mode, key, ni, data, aad, off, direction, inc, ref):
         return ("raises:" + type(e).__name__, b"".join(part), None)
 
 
-def aes_case(mode, key, data, off, acc):
+def blocks_bucket(L):
+    """number of whole blocks, exact up to 17, then one bucket per power of two (long inputs of the thorough tier)"""
+    nb = L // 16
+    return nb if nb <= 17 else 17 + nb.bit_length()
+
+
+def coarse_bucket(L):
+    nb = L // 16
+    return nb if nb <= 1 else (2 if nb < 8 else (8 if nb == 8 else (9 if nb < 16 else (16 if nb == 16 else 17))))
+
+
+def place_tag(place):
+    return None if place is None else "%s>%s" % (place[0], place[1])
+
+
+def aes_case(mode, key, data, off, acc, pv=None, place=None, incs=(0, 1, 2)):
     """Compare use_aesni=True/False for one (mode, key, data, buffer offset): encrypt and decrypt,
-    one call and two incremental segmentations."""
+    one call and two incremental segmentations.
+    thorough tier: pv = parameter variant (param_variants), place = [input alignment, output alignment|"inplace"|None]
+    (replaces `off`), incs = segmentations to run (3 = large pieces, 4 = one-shot AEAD entry points)."""
     L = len(data)
     klen = len(key)
     aad = asc((L * 7) % 41, 0x30) if FAMILY[mode] == "aead" else b""
     fired = []
     variants = [0]
     if mode in INC_OK:
-        for inc in (1, 2):
-            if len(pieces(L, inc, mode in BLOCK_MODES)) > 1 or len(pieces(len(aad), inc, False)) > 1:
+        for inc in (1, 2, 3):
+            if inc in incs and (len(pieces(L, inc, mode in BLOCK_MODES)) > 1 or len(pieces(len(aad), inc, False)) > 1):
                 variants.append(inc)
+    if 4 in incs and FAMILY[mode] == "aead" and mode != "SIV":
+        variants.append(4)
+    basic = pv is None and place is None
     for inc in variants:
         ref = None
         for direction in ("enc", "dec"):
             obs = {}
             for ni in (True, False):
                 _COUNT["ni"] = _COUNT["portable"] = 0
-                obs[ni] = _run(mode, key, ni, data, aad, off, direction, inc, ref)
+                obs[ni] = _run(mode, key, ni, data, aad, off, direction, inc, ref, pv, place)
                 acc.seen("aes_backend", (mode, ni, _COUNT["ni"] > 0, _COUNT["portable"] > 0))
             acc.count("evaluations")
             acc.count("aes_pairs")
-            acc.seen("aes_classes", (mode, klen, min(L // 16, 17), L % 16 != 0, off, direction, inc, obs[True][0]))
+            if basic:
+                acc.seen("aes_classes", (mode, klen, blocks_bucket(L), L % 16 != 0, off, direction, inc, obs[True][0]))
+            else:
+                acc.seen("aes_classes", (mode + pv_tag(pv), klen if pv is None and place is None else 0,
+                                         coarse_bucket(L) if place is None else 0, L % 16 != 0,
+                                         place_tag(place), direction, inc, obs[True][0]))
             if obs[True] != obs[False]:
                 what = "exception" if obs[True][0] != obs[False][0] else "output"
                 k = "C16/aesni/%s/%s/%s" % (FAMILY[mode], direction, what)
-                acc.violation(k, "AES-%d %s %s of %d bytes (buffer offset %d, segmentation %d): use_aesni=True -> %s, "
-                              "use_aesni=False -> %s" % (klen * 8 if mode != "SIV" else klen * 4, mode, direction, L,
-                                                         off, inc, _fmt(obs[True], obs[False]), _fmt(obs[False], obs[True])),
-                              {"part": "aes", "mode": mode, "key": key, "data": data, "off": off},
-                              script=_SCRIPT_AES % (key.hex(), data.hex(), mode))
+                case = {"part": "aes", "mode": mode, "key": key, "data": data, "off": off}
+                where = "buffer offset %d" % off
+                if pv is not None:
+                    case["pv"] = list(pv)
+                if place is not None:
+                    case["place"] = list(place)
+                    where = "input at address = %s, output at address = %s (mod 16)" % (place[0], place[1])
+                if tuple(incs) != (0, 1, 2):
+                    case["incs"] = list(incs)
+                acc.violation(k, "AES-%d %s%s %s of %d bytes (%s, segmentation %d): use_aesni=True -> %s, "
+                              "use_aesni=False -> %s" % (klen * 8 if mode != "SIV" else klen * 4, mode, pv_tag(pv),
+                                                         direction, L, where, inc, _fmt(obs[True], obs[False]),
+                                                         _fmt(obs[False], obs[True])),
+                              case, script=_SCRIPT_AES % (key.hex(), data[:4096].hex(), mode))
                 fired.append(k)
             if direction == "enc":
                 ref = (obs[True][1], obs[True][2]) if obs[True][0] == "ok" else None
@@ -300,55 +466,132 @@ def data_for(L):
     return asc(L, (L * 13 + 5) & 255)
 
 
+_KAT = []
+
+
+def kat_data():
+    if not _KAT:
+        _KAT.append(_kat_data())
+    return _KAT[0]
+
+
+def _kat_data():
+    """value classes for single blocks (after NIST AESAVS): the 128 'leading ones' blocks (VarTxt) followed by the
+    256 blocks made of one repeated byte value (every S-box input in every byte position of the first round)"""
+    out = []
+    for i in range(1, 129):
+        out.append((((1 << i) - 1) << (128 - i)).to_bytes(16, "big"))
+    for v in range(256):
+        out.append(bytes([v]) * 16)
+    return b"".join(out)
+
+
+def key_family(spec, klen, seeded_fn):
+    """keys of one shard: an index into key_alphabet, or a slice of a complete family:
+    ("varkey", lo, hi): keys with i leading one bits, i in lo..hi-1 of 1..8*klen (AESAVS VarKey);
+    ("bytekey", lo, hi): keys made of one repeated byte value v in lo..hi-1"""
+    if isinstance(spec, int):
+        return [key_alphabet(klen, seeded_fn)[spec]]
+    kind, lo, hi = spec
+    if kind == "varkey":
+        return [(((1 << i) - 1) << (8 * klen - i)).to_bytes(klen, "big") for i in range(max(lo, 1), min(hi, 8 * klen + 1))]
+    if kind == "bytekey":
+        return [bytes([v]) * klen for v in range(lo, hi)]
+    raise ValueError(spec)
+
+
 def _aes_cases(shards):
+    """-> (mode, key, data, off, pv, place, incs).  A shard element is the 5-tuple of the basic grid
+    (mode, klen, key value index, lengths, offsets) or a 6-tuple whose last element is a dict of options:
+    pv (parameter variant), places (list of [input alignment, output alignment|"inplace"|None], replaces offsets),
+    incs (segmentations), data ("asc" | "kat"), incs_short (segmentations for lengths <= 8193)"""
     from ..common import seeded
-    for mode, klen, kv, lengths, offs in shards:
-        key = key_alphabet(klen * 2 if mode == "SIV" else klen, seeded)[kv]
-        for L in lengths:
-            data = data_for(L)
-            for off in offs:
-                yield mode, key, data, off
+    for sh in shards:
+        mode, klen, kspec, lengths, offs = sh[:5]
+        o = sh[5] if len(sh) > 5 else {}
+        pv, places = o.get("pv"), o.get("places")
+        for key in key_family(kspec, klen * 2 if mode == "SIV" else klen, seeded):
+            for L in lengths:
+                data = kat_data() if o.get("data") == "kat" else data_for(L)
+                incs = tuple(o.get("incs", (0, 1, 2)))
+                if "incs_short" in o and L <= 8193:
+                    incs = tuple(o["incs_short"])
+                if places is not None:
+                    for pl in places:
+                        yield mode, key, data, 0, pv, list(pl), incs
+                else:
+                    for off in offs:
+                        yield mode, key, data, off, pv, None, incs
 
 
 def _aes_worker_inner(shards):
     acc = Acc()
     install_counters()
-    for mode, key, data, off in _aes_cases(shards):
-        aes_case(mode, key, data, off, acc)
-    mode, klen, kv, lengths, offs = shards[-1]
-    acc.sample({"part": "aes-ni", "mode": mode, "key_bits": klen * 8, "key_value": kv,
-                "lengths": "%d..%d (%d values)" % (min(lengths), max(lengths), len(lengths)), "offsets": list(offs)})
+    grids = {}
+    for sh in shards:
+        if len(sh) > 5:
+            grids[(sh[0], sh[1])] = sh[5].get("grid")
+    for mode, key, data, off, pv, place, incs in _aes_cases(shards):
+        aes_case(mode, key, data, off, acc, pv, place, incs)
+        g = grids.get((mode, len(key) // 2 if mode == "SIV" else len(key)))
+        if g is not None:
+            acc.count("aes_cases_" + g)
+            if len(data) > 273:
+                acc.seen("aes_long_lengths", len(data))
+            if g == "values":
+                acc.seen("aes_value_keys", (mode, key))
+            if pv is not None:
+                acc.seen("aes_param_variants", (mode, tuple(pv)))
+            if place is not None:
+                acc.seen("aes_places", tuple(place))
+    mode, klen, kv, lengths, offs = shards[-1][:5]
+    o = shards[-1][5] if len(shards[-1]) > 5 else {}
+    smp = {"part": "aes-ni", "mode": mode, "key_bits": klen * 8, "key_value": kv,
+           "lengths": "%d..%d (%d values)" % (min(lengths), max(lengths), len(lengths)), "offsets": list(offs)}
+    if o:
+        smp["grid"] = o.get("grid")
+        smp["parameter_variant"] = o.get("pv")
+        smp["placements"] = len(o["places"]) if o.get("places") is not None else None
+    acc.sample(smp)
     return acc
 
 
-def _aes_probe(mode, key, data, off, ni):
+def _aes_probe(mode, key, data, off, ni, pv=None, place=None, incs=(0, 1, 2)):
     """everything aes_case does, for ONE configuration (used to find which variant crashes)"""
     install_counters()
     aad = asc((len(data) * 7) % 41, 0x30) if FAMILY[mode] == "aead" else b""
     out = []
-    for inc in (0, 1, 2):
-        e = _run(mode, key, ni, data, aad, off, "enc", inc, None)
+    for inc in incs:
+        e = _run(mode, key, ni, data, aad, off, "enc", inc, None, pv, place)
         ref = (e[1], e[2]) if e[0] == "ok" else None
-        out.append((e, _run(mode, key, ni, data, aad, off, "dec", inc, ref)))
+        out.append((e, _run(mode, key, ni, data, aad, off, "dec", inc, ref, pv, place)))
     return out
 
 
-def aes_crash_case(mode, key, data, off, acc):
+def aes_crash_case(mode, key, data, off, acc, pv=None, place=None, incs=(0, 1, 2)):
     """-> True when this case kills the interpreter under at least one configuration"""
     died = {}
     for ni in (True, False):
-        res, st = forked(_aes_probe, mode, key, data, off, ni)
+        res, st = forked(_aes_probe, mode, key, data, off, ni, pv, place, tuple(incs))
         if st < 0:
             died[ni] = st
         elif st > 0:
             acc.error("harness failure while probing for a native crash: %s" % res)
     if len(died) == 1:
         ni, st = list(died.items())[0]
+        case = {"part": "aes-crash", "mode": mode, "key": key, "data": data, "off": off}
+        if pv is not None:
+            case["pv"] = list(pv)
+        if place is not None:
+            case["place"] = list(place)
+        if tuple(incs) != (0, 1, 2):
+            case["incs"] = list(incs)
         acc.violation("C16/aesni/%s/crash/use_aesni=%s" % (FAMILY[mode], ni),
-                      "AES-%d %s on %d bytes at buffer offset %d kills the interpreter (%s) with use_aesni=%s and "
-                      "completes with use_aesni=%s" % (len(key) * (4 if mode == "SIV" else 8), mode, len(data), off,
-                                                       _signame(st), ni, not ni),
-                      {"part": "aes-crash", "mode": mode, "key": key, "data": data, "off": off})
+                      "AES-%d %s%s on %d bytes at buffer offset %d%s kills the interpreter (%s) with use_aesni=%s and "
+                      "completes with use_aesni=%s" % (len(key) * (4 if mode == "SIV" else 8), mode, pv_tag(pv),
+                                                       len(data), off,
+                                                       "" if place is None else " (placement %s)" % place_tag(place),
+                                                       _signame(st), ni, not ni), case)
     elif len(died) == 2:
         acc.error("AES %s on %d bytes (offset %d) kills the interpreter under BOTH configurations (%s): no "
                   "divergence between variants, nothing C16 can decide (see C17)" % (mode, len(data), off,
@@ -357,8 +600,8 @@ def aes_crash_case(mode, key, data, off, acc):
 
 
 def aes_worker(shards):
-    """shard = (mode, klen, key_value_index, lengths, offsets); runs in a forked child so that a native crash
-    is localised (case by case) and reported instead of hanging the pool"""
+    """shard = (mode, klen, key_value_index, lengths, offsets[, options]); runs in a forked child so that a native
+    crash is localised (case by case) and reported instead of hanging the pool"""
     res, st = forked(_aes_worker_inner, shards)
     if st == 0:
         return res
@@ -366,36 +609,39 @@ def aes_worker(shards):
     if st > 0:
         acc.error("AES shard failed in the harness:\n%s" % res)
         return acc
-    for mode, key, data, off in _aes_cases(shards):
-        r2, st2 = forked(_aes_case_alone, mode, key, data, off)
+    for mode, key, data, off, pv, place, incs in _aes_cases(shards):
+        r2, st2 = forked(_aes_case_alone, mode, key, data, off, pv, place, incs)
         if st2 == 0:
             acc.merge(r2)
             continue
         if st2 > 0:
             acc.error("AES case failed in the harness:\n%s" % r2)
         else:
-            aes_crash_case(mode, key, data, off, acc)
+            aes_crash_case(mode, key, data, off, acc, pv, place, incs)
         acc.cap("AES shard %s abandoned after a native crash at length %d offset %d" % (mode, len(data), off))
         break
     return acc
 
 
-def _aes_case_alone(mode, key, data, off):
+def _aes_case_alone(mode, key, data, off, pv=None, place=None, incs=(0, 1, 2)):
     acc = Acc()
     install_counters()
-    aes_case(mode, key, data, off, acc)
+    aes_case(mode, key, data, off, acc, pv, place, incs)
     return acc
 
 
 # ---------------------------------------------------------------------------
 # part B: GCM / GHASH with and without CLMUL (and crossed with AES-NI)
 # ---------------------------------------------------------------------------
-def _gcm_run(key, nonce, aad, msg, off, clmul, ni, inc, direction, ref, acc):
+def _gcm_run(key, nonce, aad, msg, off, clmul, ni, inc, direction, ref, acc, mac_len=16, place=None):
     from Crypto.Cipher import AES
     from Crypto.Cipher import _mode_gcm
     part = []
     try:
-        c = AES.new(key, AES.MODE_GCM, nonce=nonce, use_clmul=clmul, use_aesni=ni)
+        if mac_len == 16:
+            c = AES.new(key, AES.MODE_GCM, nonce=nonce, use_clmul=clmul, use_aesni=ni)
+        else:
+            c = AES.new(key, AES.MODE_GCM, nonce=nonce, mac_len=mac_len, use_clmul=clmul, use_aesni=ni)
         signer = getattr(c, "_signer", None)
         imp = getattr(signer, "ghash_c", None)
         if imp is None:
@@ -406,13 +652,13 @@ def _gcm_run(key, nonce, aad, msg, off, clmul, ni, inc, direction, ref, acc):
         pos = 0
         if aad:
             for n in pieces(len(aad), inc, False):
-                c.update(_inp(aad[pos:pos + n], off))
+                c.update(_inp(aad[pos:pos + n], off, place))
                 pos += n
         src, tag = (msg, None) if direction == "enc" else ref
         fn = c.encrypt if direction == "enc" else c.decrypt
         pos = 0
         for n in pieces(len(src), inc, False):
-            _call(fn, _inp(src[pos:pos + n], off), off, True, part)
+            _call(fn, _inp(src[pos:pos + n], off, place), off, True, part, place)
             pos += n
         if direction == "enc":
             return ("ok", b"".join(part), bytes(c.digest()))
@@ -422,16 +668,23 @@ def _gcm_run(key, nonce, aad, msg, off, clmul, ni, inc, direction, ref, acc):
         return ("raises:" + type(e).__name__, b"".join(part), None)
 
 
+def gcm_bucket(n):
+    """whole blocks, exact up to 9, then one bucket per power of two (long inputs of the thorough tier)"""
+    nb = n // 16
+    return nb if nb <= 9 else 9 + nb.bit_length()
+
+
 def cfg_label(cfg):
     return "clmul=%s,aesni=%s" % ("T" if cfg[0] else "F", "T" if cfg[1] else "F")
 
 
-def gcm_case(key, nonce, aad, msg, off, cfgs, acc, incs=(0, 1, 2)):
-    """cfgs[0] is the reference configuration (use_clmul, use_aesni); every other one is compared with it."""
+def gcm_case(key, nonce, aad, msg, off, cfgs, acc, incs=(0, 1, 2), mac_len=16, place=None):
+    """cfgs[0] is the reference configuration (use_clmul, use_aesni); every other one is compared with it.
+    thorough tier: mac_len, place = [input alignment, output alignment | "inplace"] (replaces off), incs may hold 3"""
     fired = []
     cfgs = [tuple(bool(x) for x in c) for c in cfgs]
     variants = [0]
-    for inc in (1, 2):
+    for inc in (1, 2, 3):
         if inc in incs and (len(pieces(len(aad), inc, False)) > 1 or len(pieces(len(msg), inc, False)) > 1):
             variants.append(inc)
     for inc in variants:
@@ -439,12 +692,19 @@ def gcm_case(key, nonce, aad, msg, off, cfgs, acc, incs=(0, 1, 2)):
         for direction in ("enc", "dec"):
             if direction == "dec" and ref is None:
                 continue
-            base = _gcm_run(key, nonce, aad, msg, off, cfgs[0][0], cfgs[0][1], inc, direction, ref, acc)
-            acc.seen("gcm_classes", (len(nonce), min(len(aad) // 16, 9), len(aad) % 16 != 0, min(len(msg) // 16, 9),
-                                     len(msg) % 16 != 0, off, inc, direction, base[0]))
+            base = _gcm_run(key, nonce, aad, msg, off, cfgs[0][0], cfgs[0][1], inc, direction, ref, acc, mac_len, place)
+            cls = (min(len(nonce), 131) if len(nonce) <= 131 else 131 + len(nonce).bit_length(),
+                   gcm_bucket(len(aad)), len(aad) % 16 != 0, gcm_bucket(len(msg)),
+                   len(msg) % 16 != 0, off, inc, direction, base[0])
+            if place is not None:
+                cls = (len(nonce), 0, len(aad) % 16 != 0, 0, len(msg) % 16 != 0, 0, inc, direction, base[0],
+                       mac_len, place_tag(place))
+            elif mac_len != 16:
+                cls = cls + (mac_len, None)
+            acc.seen("gcm_classes", cls)
             diverged = {}
             for cfg in cfgs[1:]:
-                o = _gcm_run(key, nonce, aad, msg, off, cfg[0], cfg[1], inc, direction, ref, acc)
+                o = _gcm_run(key, nonce, aad, msg, off, cfg[0], cfg[1], inc, direction, ref, acc, mac_len, place)
                 acc.count("evaluations")
                 acc.count("gcm_pairs")
                 if o != base:
@@ -463,13 +723,19 @@ def gcm_case(key, nonce, aad, msg, off, cfgs, acc, incs=(0, 1, 2)):
                 else:
                     what = "tag"
                 k = "C16/gcm/%s/%s" % ("+".join(sw), what)
-                acc.violation(k, "AES-%d GCM %s nonce %d bytes, AAD %d bytes, message %d bytes (offset %d, "
+                case = {"part": "gcm", "key": key, "nonce": nonce, "aad": aad, "msg": msg, "off": off,
+                        "cfgs": [list(c) for c in cfgs], "incs": list(incs)}
+                if mac_len != 16:
+                    case["mac_len"] = mac_len
+                if place is not None:
+                    case["place"] = list(place)
+                acc.violation(k, "AES-%d GCM %s nonce %d bytes, AAD %d bytes, message %d bytes (offset %d%s%s, "
                               "segmentation %d): %s -> %s ; %s -> %s"
-                              % (len(key) * 8, direction, len(nonce), len(aad), len(msg), off, inc,
+                              % (len(key) * 8, direction, len(nonce), len(aad), len(msg), off,
+                                 "" if mac_len == 16 else ", mac_len %d" % mac_len,
+                                 "" if place is None else ", placement %s" % place_tag(place), inc,
                                  cfg_label(cfgs[0]), _fmt(base, o), cfg_label(cfg), _fmt(o, base)),
-                              {"part": "gcm", "key": key, "nonce": nonce, "aad": aad, "msg": msg, "off": off,
-                               "cfgs": [list(c) for c in cfgs], "incs": list(incs)},
-                              script=_SCRIPT_GCM % (key.hex(), nonce.hex(), aad.hex(), msg.hex()))
+                              case, script=_SCRIPT_GCM % (key.hex(), nonce.hex(), aad.hex(), msg.hex()))
                 fired.append(k)
             if direction == "enc":
                 ref = (base[1], base[2]) if base[0] == "ok" else None
@@ -488,19 +754,34 @@ for clmul in (True, False):
 GCM_NONCES_FULL = (1, 8, 11, 12, 13, 15, 16, 17, 31, 32, 33, 64, 65, 128)
 GCM_NONCES_QUICK = (1, 16, 17, 64)
 BAND = (0, 1, 15, 16, 17, 63, 64, 65, 130)
+# thorough tier ------------------------------------------------------------------------------
+GCM_KEYS_QUICK = 10
+GCM_KEYS_FULL = 32
+# every nonce length 1..130, then the powers of two (+-1) up to 2^16 (the nonce is hashed with GHASH in ONE call)
+GCM_NONCES_ALL = tuple(range(1, 131)) + tuple(2 ** k + d for k in range(8, 17) for d in (-1, 0, 1))
+# lengths around the 64-byte (4-block) unit of ghash_clmul.c and powers of two up to 2^16
+GCM_LONG = tuple(sorted(set(2 ** k + d for k in range(8, 17) for d in (-1, 0, 1, 16, 48, 49))))
+GCM_LONG_SMALL = tuple(x for x in GCM_LONG if x <= 4096 + 49)
 
 
-def gcm_keys(seeded_fn):
+def gcm_keys(seeded_fn, n=GCM_KEYS_QUICK):
     """H = AES_K(0^128) is the GHASH key: several keys so that both values of H's top and bottom
     bits occur (measured in the worker)."""
-    return [bytes(16), b"\xff" * 16, asc(16, 1)] + [seeded_fn("c16gcm%d" % i, 16) for i in range(5)] + \
-           [asc(24, 7), asc(32, 9)]
+    ks = [bytes(16), b"\xff" * 16, asc(16, 1)] + [seeded_fn("c16gcm%d" % i, 16) for i in range(5)] + \
+         [asc(24, 7), asc(32, 9)]
+    ks += [seeded_fn("c16gcm%d" % i, (16, 24, 32)[i % 3]) for i in range(10, n)]
+    return ks
 
 
 def _gcm_cases(shards):
+    """-> (key, nonce, aad, msg, off, cfgs, incs, mac_len, place).  Shard element = (kind, key index, nonce length,
+    AAD lengths, message lengths, offsets, cfgs[, options]); options: mac_len, places, incs, incs_short,
+    skip_below (pairs with both lengths <= this value are left to another shard)"""
     from ..common import seeded
-    keys = gcm_keys(seeded)
-    for kind, ki, nl, alens, mlens, offs, cfgs in shards:
+    keys = gcm_keys(seeded, GCM_KEYS_FULL)
+    for sh in shards:
+        kind, ki, nl, alens, mlens, offs, cfgs = sh[:7]
+        o = sh[7] if len(sh) > 7 else {}
         key = keys[ki]
         nonce = asc(nl, 0xC0)
         for a in alens:
@@ -508,9 +789,18 @@ def _gcm_cases(shards):
             for m in mlens:
                 if kind == "band" and a not in BAND and m not in BAND:
                     continue
+                if "skip_below" in o and a <= o["skip_below"] and m <= o["skip_below"]:
+                    continue
                 msg = data_for(m)
-                for off in offs:
-                    yield key, nonce, aad, msg, off, cfgs, ((0,) if kind == "full1" else (0, 1, 2))
+                incs = (0,) if kind == "full1" else tuple(o.get("incs", (0, 1, 2)))
+                if "incs_short" in o and a <= 8193 and m <= 8193:
+                    incs = tuple(o["incs_short"])
+                if o.get("places") is not None:
+                    for pl in o["places"]:
+                        yield key, nonce, aad, msg, 0, cfgs, incs, o.get("mac_len", 16), list(pl)
+                else:
+                    for off in offs:
+                        yield key, nonce, aad, msg, off, cfgs, incs, o.get("mac_len", 16), None
 
 
 def _gcm_worker_inner(shards):
@@ -518,62 +808,80 @@ def _gcm_worker_inner(shards):
     acc = Acc()
     install_counters()
     seen_keys = set()
-    for key, nonce, aad, msg, off, cfgs, incs in _gcm_cases(shards):
+    for key, nonce, aad, msg, off, cfgs, incs, mac_len, place in _gcm_cases(shards):
         if key not in seen_keys:
             seen_keys.add(key)
             h = AES.new(key, AES.MODE_ECB).encrypt(bytes(16))
             acc.seen("gcm_h_bits", (h[0] >> 7, h[15] & 1))
-        gcm_case(key, nonce, aad, msg, off, cfgs, acc, incs=incs)
-    kind, ki, nl, alens, mlens, offs, cfgs = shards[-1]
-    acc.sample({"part": "gcm-clmul", "grid": kind, "key_index": ki, "nonce_len": nl, "aad_lengths": len(alens),
-                "msg_lengths": len(mlens), "offsets": list(offs), "configs": [cfg_label(c) for c in cfgs]})
+        gcm_case(key, nonce, aad, msg, off, cfgs, acc, incs=incs, mac_len=mac_len, place=place)
+        acc.seen("gcm_nonce_lens", len(nonce))
+        acc.seen("gcm_mac_lens", mac_len)
+        if place is not None:
+            acc.seen("gcm_places", tuple(place))
+        if len(aad) > 273 or len(msg) > 273:
+            acc.seen("gcm_long_lengths", max(len(aad), len(msg)))
+    kind, ki, nl, alens, mlens, offs, cfgs = shards[-1][:7]
+    o = shards[-1][7] if len(shards[-1]) > 7 else {}
+    smp = {"part": "gcm-clmul", "grid": kind, "key_index": ki, "nonce_len": nl, "aad_lengths": len(alens),
+           "msg_lengths": len(mlens), "offsets": list(offs), "configs": [cfg_label(c) for c in cfgs]}
+    if o:
+        smp["options"] = {k: (len(v) if k == "places" else v) for k, v in o.items()}
+    acc.sample(smp)
     return acc
 
 
-def _gcm_probe(key, nonce, aad, msg, off, cfg, incs):
+def _gcm_probe(key, nonce, aad, msg, off, cfg, incs, mac_len=16, place=None):
     acc = Acc()
     out = []
     for inc in incs:
-        e = _gcm_run(key, nonce, aad, msg, off, cfg[0], cfg[1], inc, "enc", None, acc)
+        e = _gcm_run(key, nonce, aad, msg, off, cfg[0], cfg[1], inc, "enc", None, acc, mac_len, place)
         out.append(e)
         if e[0] == "ok":
-            out.append(_gcm_run(key, nonce, aad, msg, off, cfg[0], cfg[1], inc, "dec", (e[1], e[2]), acc))
+            out.append(_gcm_run(key, nonce, aad, msg, off, cfg[0], cfg[1], inc, "dec", (e[1], e[2]), acc, mac_len,
+                                place))
     return out
 
 
-def gcm_crash_case(key, nonce, aad, msg, off, cfgs, incs, acc):
+def gcm_crash_case(key, nonce, aad, msg, off, cfgs, incs, acc, mac_len=16, place=None):
     died = {}
     cfgs = [tuple(bool(x) for x in c) for c in cfgs]
     for cfg in cfgs:
-        res, st = forked(_gcm_probe, key, nonce, aad, msg, off, cfg, tuple(incs))
+        res, st = forked(_gcm_probe, key, nonce, aad, msg, off, cfg, tuple(incs), mac_len, place)
         if st < 0:
             died[cfg] = st
         elif st > 0:
             acc.error("harness failure while probing for a native crash: %s" % res)
     if died and len(died) < len(cfgs):
+        case = {"part": "gcm-crash", "key": key, "nonce": nonce, "aad": aad, "msg": msg, "off": off,
+                "cfgs": [list(c) for c in cfgs], "incs": list(incs)}
+        if mac_len != 16:
+            case["mac_len"] = mac_len
+        if place is not None:
+            case["place"] = list(place)
         acc.violation("C16/gcm/crash/%s" % "+".join(cfg_label(c) for c in cfgs if c in died),
-                      "AES-%d GCM nonce %d bytes, AAD %d bytes, message %d bytes at offset %d kills the interpreter "
+                      "AES-%d GCM nonce %d bytes, AAD %d bytes, message %d bytes at offset %d%s kills the interpreter "
                       "(%s) under %s and completes under the other configurations"
-                      % (len(key) * 8, len(nonce), len(aad), len(msg), off, _signame(list(died.values())[0]),
-                         [cfg_label(c) for c in died]),
-                      {"part": "gcm-crash", "key": key, "nonce": nonce, "aad": aad, "msg": msg, "off": off,
-                       "cfgs": [list(c) for c in cfgs], "incs": list(incs)})
+                      % (len(key) * 8, len(nonce), len(aad), len(msg), off,
+                         "" if place is None else " (placement %s)" % place_tag(place),
+                         _signame(list(died.values())[0]), [cfg_label(c) for c in died]), case)
     elif died:
         acc.error("GCM case kills the interpreter under ALL configurations: nothing C16 can decide (see C17)")
     return bool(died)
 
 
-def _gcm_case_alone(key, nonce, aad, msg, off, cfgs, incs):
+def _gcm_case_alone(key, nonce, aad, msg, off, cfgs, incs, mac_len=16, place=None):
     acc = Acc()
     install_counters()
-    gcm_case(key, nonce, aad, msg, off, cfgs, acc, incs=incs)
+    gcm_case(key, nonce, aad, msg, off, cfgs, acc, incs=incs, mac_len=mac_len, place=place)
     return acc
 
 
 def gcm_worker(shards):
-    """shard = (kind, key_index, nonce_len, aad_lengths, msg_lengths, offsets, cfgs)
+    """shard = (kind, key_index, nonce_len, aad_lengths, msg_lengths, offsets, cfgs[, options])
     kind: 'full' = whole cross product, all segmentations; 'full1' = whole cross product, one call only;
     'band' = pairs with a or m in BAND, all segmentations.  Forked like aes_worker."""
+    if shards and shards[0][0] == "ghash":
+        return ghash_worker(shards)
     res, st = forked(_gcm_worker_inner, shards)
     if st == 0:
         return res
@@ -581,16 +889,133 @@ def gcm_worker(shards):
     if st > 0:
         acc.error("GCM shard failed in the harness:\n%s" % res)
         return acc
-    for key, nonce, aad, msg, off, cfgs, incs in _gcm_cases(shards):
-        r2, st2 = forked(_gcm_case_alone, key, nonce, aad, msg, off, cfgs, incs)
+    for key, nonce, aad, msg, off, cfgs, incs, mac_len, place in _gcm_cases(shards):
+        r2, st2 = forked(_gcm_case_alone, key, nonce, aad, msg, off, cfgs, incs, mac_len, place)
         if st2 == 0:
             acc.merge(r2)
             continue
         if st2 > 0:
             acc.error("GCM case failed in the harness:\n%s" % r2)
         else:
-            gcm_crash_case(key, nonce, aad, msg, off, cfgs, incs, acc)
+            gcm_crash_case(key, nonce, aad, msg, off, cfgs, incs, acc, mac_len, place)
         acc.cap("GCM shard abandoned after a native crash (nonce %d, AAD %d, message %d, offset %d)"
                 % (len(nonce), len(aad), len(msg), off))
         break
+    return acc
+
+
+# ---------------------------------------------------------------------------
+# part B, thorough tier: the GHASH function itself through the seam Crypto.Cipher._mode_gcm._GHASH(subkey, impl)
+# (the subkey H cannot be chosen through AES.new: H = AES_K(0)).  GF(2^128) multiplication is bilinear over GF(2):
+# the complete enumeration of (single-bit H) x (single-bit X at every block position) compares the two
+# implementations on a basis of the whole function, including the H^2..H^4 powers of the 4-block loop.
+# ---------------------------------------------------------------------------
+GHASH_MAX_BLOCKS = 9                 # 2 iterations of the 4-block loop of ghash_clmul.c + 1 single block
+GHASH_CHUNK_BLOCKS = 40
+
+
+def ghash_h_family():
+    from ..common import seeded
+    fam = [(1 << (127 - i)).to_bytes(16, "big") for i in range(128)]
+    fam += [bytes(16), b"\xff" * 16, asc(16, 1)] + [seeded("c16ghashH%d" % i, 16) for i in range(5)]
+    return fam
+
+
+def ghash_x_family():
+    from ..common import seeded
+    fam = [(1 << (127 - i)).to_bytes(16, "big") for i in range(128)]
+    fam += [b"\xff" * 16, seeded("c16ghashX", 16)]
+    return fam
+
+
+def _ghash_seam():
+    from Crypto.Cipher import _mode_gcm
+    G = getattr(_mode_gcm, "_GHASH", None)
+    return G, getattr(_mode_gcm, "_ghash_clmul", None), getattr(_mode_gcm, "_ghash_portable", None)
+
+
+def _ghash_one(G, imp, h, chunks_, align):
+    try:
+        g = G(h, imp)
+        for c in chunks_:
+            g.update(c if align is None else aligned(len(c), align, c))
+        return ("ok", bytes(g.digest()))
+    except Exception as e:  # noqa
+        return ("raises:" + type(e).__name__, None)
+
+
+def ghash_case(h, chunks_, align, acc, what="basis"):
+    """GHASH_H over the concatenation of chunks_ (one update() call each, multiples of 16 bytes), the data of every
+    call placed at an address = align (mod 16); CLMUL against portable."""
+    G, clmul, portable = _ghash_seam()
+    if G is None or portable is None:
+        acc.error("harness cannot reach seam Crypto.Cipher._mode_gcm._GHASH/_ghash_portable")
+        return None
+    if clmul is None:
+        acc.count("ghash_skipped_no_clmul")
+        return None
+    chunks_ = [bytes(c) for c in chunks_]
+    a = _ghash_one(G, clmul, h, chunks_, align)
+    b = _ghash_one(G, portable, h, chunks_, align)
+    acc.count("evaluations")
+    acc.count("ghash_pairs")
+    if a == b:
+        return None
+    k = "C16/ghash/use_clmul/%s" % ("exception" if a[0] != b[0] else "digest")
+    acc.violation(k, "GHASH with H=%s over %s (update calls of %s bytes, data address = %s mod 16): clmul -> %s %s, "
+                  "portable -> %s %s" % (h.hex(), short(b"".join(chunks_), 48), [len(c) for c in chunks_], align,
+                                         a[0], short(a[1]), b[0], short(b[1])),
+                  {"part": "ghash", "h": h, "chunks": chunks_, "align": align, "what": what},
+                  script=_SCRIPT_GHASH % (h.hex(), [c.hex() for c in chunks_]))
+    return k
+
+
+_SCRIPT_GHASH = '''# stand-alone reproduction (needs only pycryptodome; _GHASH is the class GCM uses internally)
+from Crypto.Cipher import _mode_gcm as G
+h = bytes.fromhex("%s"); chunks = [bytes.fromhex(c) for c in %r]
+for name, imp in (("clmul", G._ghash_clmul), ("portable", G._ghash_portable)):
+    g = G._GHASH(h, imp)
+    for c in chunks:
+        g.update(c)
+    print(name, g.digest().hex())
+'''
+
+
+def ghash_shards():
+    nh = len(ghash_h_family())
+    sh = [[("ghash", "basis", i, min(i + 4, nh))] for i in range(0, nh, 4)]
+    sh += [[("ghash", "chunking", hi, al)] for hi in range(128, nh) for al in (None, 0, 1, 2, 3, 4, 5, 6, 7, 8, 9, 10, 11,
+                                                                               12, 13, 14, 15)][::1]
+    return sh
+
+
+def ghash_worker(shards):
+    acc = Acc()
+    H = ghash_h_family()
+    X = ghash_x_family()
+    Z = bytes(16)
+    from ..common import seeded
+    for sh in shards:
+        if sh[1] == "basis":
+            for hi in range(sh[2], sh[3]):
+                h = H[hi]
+                for n in range(1, GHASH_MAX_BLOCKS + 1):
+                    for p in range(n):
+                        pre, post = Z * p, Z * (n - 1 - p)
+                        for xi, x in enumerate(X):
+                            ghash_case(h, [pre + x + post], None, acc)
+                acc.seen("ghash_classes", ("basis", "H-bit" if hi < 128 else "H-dense"))
+            acc.seen("ghash_h", tuple(range(sh[2], sh[3])))
+        elif sh[1] == "chunking":
+            h = H[sh[2]]
+            data = seeded("c16ghashdata", 16 * GHASH_CHUNK_BLOCKS)
+            for n in range(0, GHASH_CHUNK_BLOCKS + 1):
+                for n1 in range(0, n + 1):
+                    ghash_case(h, [data[:16 * n1], data[16 * n1:16 * n]], sh[3], acc, "chunking")
+            acc.seen("ghash_classes", ("chunking", sh[3]))
+            if sh[3] is not None:
+                acc.seen("ghash_align", sh[3])
+        else:
+            acc.error("unknown ghash shard %r" % (sh,))
+    acc.sample({"part": "ghash", "shard": [str(x) for x in shards[-1]]})
     return acc
